@@ -39,15 +39,28 @@ impl<'a> Seek for FailReader<'a> {
     }
 }
 
-/// writer that accepts `cap` bytes in total, then fails
+/// writer that accepts `cap` bytes, then reports ONE fault (a transient fault, like a socket that times out once); whatever is
+/// offered after the fault is accepted and recorded too, so an operation that carries on after a failed write (or swallows the
+/// error of one piece) shows up as more than `cap` bytes / not a prefix / a success
 pub struct FailWriter {
     pub got: Vec<u8>,
     pub cap: usize,
+    pub fired: bool,
+}
+impl FailWriter {
+    pub fn new(cap: usize) -> FailWriter {
+        FailWriter { got: vec![], cap, fired: false }
+    }
 }
 impl Write for FailWriter {
     fn write(&mut self, buf: &[u8]) -> std::io::Result<usize> {
+        if self.fired {
+            self.got.extend(buf);
+            return Ok(buf.len());
+        }
         let left = self.cap - self.got.len();
         if left == 0 && !buf.is_empty() {
+            self.fired = true;
             return Err(std::io::Error::new(std::io::ErrorKind::Other, "injected write fault"));
         }
         let n = buf.len().min(left);
@@ -163,10 +176,12 @@ impl Any {
         }
     }
     /// Some((ok, bytes left unwritten | required_len, len)) for the types that offer write_to_slice
-    pub fn write_to_slice(&self, buf: &mut [u8]) -> Option<Result<usize, (usize, usize, usize)>> {
+    pub fn write_to_slice(&self, buf: &mut [u8]) -> Option<Result<usize, (usize, usize, usize, i64)>> {
+        // the same error converted to the packet level error of the builder: it must still name the required length
+        let conv = |e: &err::SliceWriteSpaceError| match err::packet::BuildSliceWriteError::from(e.clone()) { err::packet::BuildSliceWriteError::Space(n) => n as i64, _ => -1 };
         match self {
-            Any::Eth(h) => Some(h.write_to_slice(buf).map(|r| r.len()).map_err(|e| (e.required_len, e.len, e.layer_start_offset))),
-            Any::Sll(h) => Some(h.write_to_slice(buf).map(|r| r.len()).map_err(|e| (e.required_len, e.len, e.layer_start_offset))),
+            Any::Eth(h) => Some(h.write_to_slice(buf).map(|r| r.len()).map_err(|e| (e.required_len, e.len, e.layer_start_offset, conv(&e)))),
+            Any::Sll(h) => Some(h.write_to_slice(buf).map(|r| r.len()).map_err(|e| (e.required_len, e.len, e.layer_start_offset, conv(&e)))),
             _ => None,
         }
     }
@@ -364,7 +379,7 @@ pub fn run_case(id: &str, c: &Value) -> Value {
         if let Ok((h, _)) = &sl {
             let full = h.bytes();
             for k in 0..=full.len() + 1 {
-                let mut w = FailWriter { got: vec![], cap: k };
+                let mut w = FailWriter::new(k);
                 let ok = h.write(&mut w).is_ok();
                 let prefix = w.got.len() <= full.len() && w.got[..] == full[..w.got.len()];
                 writes.push(json!([k, if ok { 1 } else { 0 }, w.got.len(), if prefix { 1 } else { 0 }]));
@@ -374,12 +389,12 @@ pub fn run_case(id: &str, c: &Value) -> Value {
                     match res {
                         Ok(left) => {
                             let n = k - left;
-                            slices.push(json!([k, 1, n, k, if canary { 1 } else { 0 }, if buf[..n] == full[..] { 1 } else { 0 }]));
+                            slices.push(json!([k, 1, n, k, if canary { 1 } else { 0 }, if buf[..n] == full[..] { 1 } else { 0 }, -1]));
                         }
-                        Err((req, len, _off)) => {
+                        Err((req, len, _off, conv)) => {
                             // whatever was written into the slice must still be a prefix of the encoding (or untouched)
                             let pre = (0..k).all(|i| buf[i] == 0xC7 || buf[i] == full[i]);
-                            slices.push(json!([k, 0, req, len, if canary { 1 } else { 0 }, if pre { 1 } else { 0 }]));
+                            slices.push(json!([k, 0, req, len, if canary { 1 } else { 0 }, if pre { 1 } else { 0 }, conv]));
                         }
                     }
                 }
